@@ -3,6 +3,7 @@ package main
 // Built-in semantics for library functions the executed code reaches (DESIGN §2.6 rule 1).
 
 import (
+	"sort"
 	"regexp"
 	"fmt"
 	"go/types"
@@ -682,6 +683,13 @@ func (e *Engine) render(st *State, v Value, verb byte) *Term {
 					continue
 				}
 			}
+			if mt, ok := a.T.Underlying().(*types.Map); ok {
+				// map[string]string with concrete, distinct, live keys: fmt prints map[k:v ...] with sorted keys
+				if r := e.renderStringMap(st, mt, a.V); r != nil {
+					vs = append(vs, r)
+					continue
+				}
+			}
 			if t, ok := a.V.(*Term); ok {
 				vs = append(vs, e.render(st, t, verb))
 				if b, ok := a.T.Underlying().(*types.Basic); ok && t.S.K == SBV && t.IsConst() {
@@ -711,6 +719,56 @@ func (e *Engine) render(st *State, v Value, verb byte) *Term {
 		}
 	}
 	return ts.Fresh("opaque:fmt", StringSort)
+}
+
+func (e *Engine) renderStringMap(st *State, mt *types.Map, v Value) *Term {
+	kb, ok1 := mt.Key().Underlying().(*types.Basic)
+	eb, ok2 := mt.Elem().Underlying().(*types.Basic)
+	if !ok1 || !ok2 || kb.Kind() != types.String || eb.Kind() != types.String {
+		return nil
+	}
+	p, ok := v.(Ptr)
+	if !ok {
+		return nil
+	}
+	o, _, okc := p.concrete()
+	if !okc {
+		return nil
+	}
+	ts := e.ts
+	if o == 0 {
+		return ts.StrC("map[]")
+	}
+	type kv struct {
+		k string
+		v *Term
+	}
+	var items []kv
+	seen := map[string]bool{}
+	for _, en := range st.obj(o).Entries {
+		if en.Live != nil && en.Live.IsFalse() {
+			continue
+		}
+		if !en.K.IsConst() || en.Live == nil || !en.Live.IsTrue() || seen[en.K.Str] {
+			return nil
+		}
+		val, ok := en.V.(*Term)
+		if !ok {
+			return nil
+		}
+		seen[en.K.Str] = true
+		items = append(items, kv{en.K.Str, val})
+	}
+	sort.Slice(items, func(i, j int) bool { return items[i].k < items[j].k })
+	parts := []*Term{ts.StrC("map[")}
+	for i, it := range items {
+		if i > 0 {
+			parts = append(parts, ts.StrC(" "))
+		}
+		parts = append(parts, ts.StrC(it.k+":"), it.v)
+	}
+	parts = append(parts, ts.StrC("]"))
+	return ts.StrConcat(parts...)
 }
 
 // format renders a constant format string; returns the string term and the %w operand if any.
